@@ -44,6 +44,7 @@ type Term struct {
 }
 
 type TermStore struct {
+	BvUF  bool // model non-linearisable bit operations as uninterpreted functions (sound over-approximation)
 	tab   map[string]*Term
 	next  int
 	vars  []*Term
@@ -799,12 +800,18 @@ func (t *Term) ref() string {
 }
 
 // body returns the SMT-LIB definition body of a non-leaf term.
-func (t *Term) body() string {
+func (t *Term) body() string { return t.bodyM(false) }
+
+func (t *Term) bodyM(bvAsUF bool) string {
 	var sb strings.Builder
 	op := t.op
 	if op == "bvorneg" {
 		a := t.args[0].ref()
 		return fmt.Sprintf("(- (bv2nat (bvor ((_ int2bv 64) %s) (bvneg ((_ int2bv 64) %s)))) 18446744073709551616)", a, a)
+	}
+	if strings.HasPrefix(op, "bv:") && bvAsUF {
+		p := strings.Split(op, ":")
+		return fmt.Sprintf("(|%s_%s| %s %s)", p[1], p[2], t.args[0].ref(), t.args[1].ref())
 	}
 	if strings.HasPrefix(op, "bv:") {
 		p := strings.Split(op, ":")
